@@ -11,6 +11,7 @@ import Proofs.LexerRoundTrip
 import Props.Bytes
 import Proofs.QuotedIdent
 import Proofs.JsonValue
+import Proofs.RawString
 namespace Jmes.Props
 open Jmes Jmes.Lexer
 
@@ -18,12 +19,12 @@ theorem C14_generated_table_ok : TableOK Generated.table = true := generated_tab
 theorem C14_generated_sigs_ok : SigsOK Generated.functionTable Spec.functionTable = true := generated_sigs_ok
 theorem C14_generated_lex_ok : LexTablesOK Model.lexTables Spec.lexTables = true := generated_lex_ok
 
-/-- A raw string literal (with ' written as \') denotes exactly the string,
-    backslashes included: scanning the spelling followed by the closing quote
+/-- A raw string literal (with ' written as \') denotes exactly the string — any
+    well-formed UTF-8 string the syntax can spell, every plane, backslashes included: scanning the spelling followed by the closing quote
     yields the string and leaves the rest of the expression. -/
-theorem C14_raw_string_round_trip (s rest : Bytes) (ha : Ascii s) (hok : RawOK s) :
+theorem C14_raw_string_round_trip (s rest : Bytes) (ha : Json.ValidUtf8 s) (hok : RawOK s) :
     rawBody (rawSpell s ++ 0x27 :: rest).length (rawSpell s ++ 0x27 :: rest) = some (s, rest) :=
-  rawBody_rawSpell' s rest ha hok
+  rawBody_rawSpell_utf8 ha rest _ hok (by simp)
 
 /-- Quoted identifiers and literals: the delimiter scan returns exactly the
     delimited text when it is made of units (plain bytes, or a backslash and the
@@ -189,5 +190,22 @@ theorem C14_literal_text_denotes_value {N : Type} [NumOps N] (hN : NumCodec N) (
     (Json.decode (unescapeBacktick (btSpell (encode v))) : Option (Val N)) = some v := by
   rw [unescapeBacktick_btSpell]
   exact decode_encode hN v hv hd
+
+open Jmes.Lexer Jmes.Json Jmes.Spec in
+/-- … and as an expression: `'` + the spelling of `s` + `'` compiles to the literal `s`
+    (so `Search` returns exactly `s`, whatever the document). -/
+theorem C14_raw_string_denotes {N : Type} [NumOps N] (s : Bytes) (hv : ValidUtf8 s) (hok : RawOK s) (d : Val N) :
+    Api.search Model.cfg (0x27 :: (rawSpell s ++ [0x27])) d = .ok (.str s) := by
+  have hr : Rendered [(.stringLiteral, s)] ([] ++ ((0x27 :: (rawSpell s ++ [0x27])) ++ [])) :=
+    Rendered.cons [] .stringLiteral s _ [] [] (by simp) (Spell.raw s hv hok) (Rendered.nil [] (by simp)) trivial
+  simp only [List.nil_append, List.append_nil] at hr
+  have hk : Parser.KeysOf (ppE (PE.raw s : PE N)) [(.stringLiteral, s)] := by
+    simp only [ppE]
+    exact Parser.KeysOf.cons rfl (fun _ => rfl) Parser.KeysOf.nil
+  have hcomp : (Api.compile Model.cfg (0x27 :: (rawSpell s ++ [0x27])) : Res (Node N)) = .ok (.literal (.str s)) := by
+    refine compile_rendered hk hr ?_
+    rw [Parser.parseTokens_congr (sameDecisions_of_tableOK Generated.table Spec.table generated_table_ok spec_table_ok)]
+    exact Parser.round_trip_spec (PE.raw s) trivial
+  simp only [Api.search, hcomp, Interp.eval]
 
 end Jmes.Props
